@@ -174,7 +174,8 @@ def builder_keys_table(fn):
 
     def S(x):
         return ("str", x)
-    this = CF("Locale", keys=L(T(S("a"), A("va")), T(S("b"), A("vb")), T(S("c"), A("vc"))), top_locale_name=S("en"), name=S("en"))
+    # the Locale of a sub-key group: `name` is the group's key, `top_locale_name` the locale it belongs to
+    this = CF("Locale", keys=L(T(S("a"), A("va")), T(S("b"), A("vb")), T(S("c"), A("vc"))), top_locale_name=S("en"), name=S("group"))
     ev = AEval(funcs={}, builtins={
         "push_key": lambda rv, a: (stack.append(a[0]), UNIT)[1], "pop_key": lambda rv, a: C("Some", stack.pop()) if stack else C("None"),
         "unwrap_at": lambda rv, a: (rv[2][0] if rv[0] == "ctor" and rv[1] in ("Some", "Ok") else rv), "reduce": lambda rv, a: UNIT,
@@ -257,7 +258,7 @@ def r3_accessors(ctx):
     if fn is not None:
         got, want, shown = builder_keys_table(fn)
         if got == want:
-            r.inst("make_builder_keys", "one builder key per key of self.keys, made from that key's own value with the locale's top_locale_name")
+            r.inst("make_builder_keys", "one builder key per key of self.keys, made from that key's own value with the top locale's name as the fallback of last resort (also inside a sub-key group, whose own name is the group's key)")
         else:
             r.viol("R3:make_builder_keys", "for keys {a, b, c} make_builder_keys yields %s (expected one entry per key: %s)" % (shown, want), file=fn.file, line=fn.line)
     return r
@@ -317,6 +318,15 @@ def run(ctx):
     rules.append(r2)
     rules.append(r3_accessors(ctx))
     rules.append(r4_warnings(ctx))
+    # `an inherits entry silences the missing report`: whether a locale has an entry is read from the table the configuration
+    # loader hands on - the clause of C19.R0 that every valid entry (also one naming the default locale) is kept
+    from rules import c19
+    from rules.common import borrow
+    k0, _ok, _why = c19.r0_config(ctx)
+    rules.append(borrow(k0, "C07.R5", "every configured `inherits` entry reaches the key check",
+                        "`an explicit null or an inherits entry silences the missing report`: an entry dropped while the configuration is "
+                        "loaded (e.g. one that names the default locale) turns its locale back into one that reports every absent key",
+                        only=r"inherits", floor=1))
     return rules
 
 
